@@ -146,10 +146,12 @@ func decodeStruct(p Paragraph, into reflect.Value) error {
 		field := into.Field(i)
 		fieldType := into.Type().Field(i)
 
-		if field.Type().Kind() == reflect.Struct && field.Type() != paragraphType {
+		if field.Type().Kind() == reflect.Struct && field.Type() != paragraphType && field.CanSet() {
 			/* Walk into plain nested structs. Types that unpack themselves
 			 * (versions, dependencies, ...) are left alone: their members
-			 * are not fields of the Paragraph. */
+			 * are not fields of the Paragraph. Unexported struct members
+			 * can be neither asked for that interface nor set, so they are
+			 * left alone as well. */
 			if _, ok := field.Addr().Interface().(Unmarshallable); !ok {
 				err := decodeStruct(p, field)
 				if err != nil {
